@@ -92,9 +92,11 @@ import (
 	"net"
 	"net/http"
 	"net/http/httptest"
+	"runtime"
 	"runtime/debug"
 	"sort"
 	"strings"
+	"sync"
 	"testing"
 	"time"
 
@@ -205,9 +207,12 @@ func c16Gen(rng *sim.Rand, tier string) interface{} {
 		}
 		sc.Store.PutErr, sc.Store.GetErr, sc.Store.DelErr = e(), e(), e()
 	}
-	connGaps := []int{0, 50, 1000, 20000, 300000, 2000000, 4000000, 12000000}
-	stepGaps := []int{0, 0, 100, 1000, 50000, 1000000}
-	endGaps := []int{0, 100, 2000, 100000, 1000000, 3000000, 8000000}
+	// odd values: instants of the script should not coincide with the 200 ms
+	// resend ticks and keep-alive deadlines of the code under test (ties between
+	// timers of production goroutines are not reproducible)
+	connGaps := []int{0, 53, 1003, 20011, 307000, 2003000, 4001000, 12007000}
+	stepGaps := []int{0, 0, 101, 1007, 50700, 1009000}
+	endGaps := []int{0, 103, 2011, 103000, 1013000, 3001000, 8017000}
 	qos := func() byte {
 		if sc.AllQoS1 {
 			return 1
@@ -246,13 +251,13 @@ func c16Gen(rng *sim.Rand, tier string) interface{} {
 		sc.AllQoS1 = true
 		sc.BufSize = rng.Pick(64, 128, 200)
 		f := c16Filters[rng.Intn(3)]
-		c0 := c16Conn{Clean: rng.Bool(0.2), KeepAlive: uint16(rng.Pick(0, 0, 0, 5)), NoAck: true, End: "stall",
+		c0 := c16Conn{Clean: rng.Bool(0.2), NoAck: true, End: "stall",
 			Steps: []c16Step{{Op: "sub", Filters: []string{f}, QoS: 1}}}
 		sc.Conns = append(sc.Conns, c0)
 		for i := rng.Range(1, 6); i > 0; i-- {
-			sc.Pubs = append(sc.Pubs, c16Pub{GapUs: int64(rng.Pick(50000, 100000, 300000)), Topic: "a/b", QoS: 1})
+			sc.Pubs = append(sc.Pubs, c16Pub{GapUs: int64(rng.Pick(50700, 103000, 307000)), Topic: "a/b", QoS: 1})
 		}
-		c1 := c16Conn{Clean: rng.Bool(0.25), GapUs: int64(rng.Pick(3000000, 14000000, 20000000, 30000000)), End: "stay", Steps: steps(rng.Range(0, 2))}
+		c1 := c16Conn{Clean: rng.Bool(0.25), GapUs: int64(rng.Pick(3001000, 14003000, 20011000, 30007000)), End: "stay", Steps: steps(rng.Range(0, 2))}
 		plan(&c1)
 		sc.Conns = append(sc.Conns, c1)
 	} else {
@@ -268,13 +273,16 @@ func c16Gen(rng *sim.Rand, tier string) interface{} {
 				c.KeepAlive = uint16(rng.Pick(0, 0, 3600))
 			} else {
 				c.End = rng.PickStr("disconnect", "close", "reset", "reset", "silent", "silent", "stall", "ping", "stay")
-				c.KeepAlive = uint16(rng.Pick(0, 0, 1, 2, 5))
+				c.KeepAlive = uint16(rng.Pick(0, 0, 1, 3, 5))
+				if c.End == "stall" {
+					c.KeepAlive = 0
+				}
 			}
 			plan(&c)
 			sc.Conns = append(sc.Conns, c)
 		}
 		for i := rng.Pick(0, 0, 1, 3, 8); i > 0; i-- {
-			p := c16Pub{GapUs: int64(rng.Pick(0, 1000, 100000, 1000000, 3000000)), Topic: c16Topics[rng.Intn(len(c16Topics))]}
+			p := c16Pub{GapUs: int64(rng.Pick(0, 1009, 103000, 1013000, 3001000)), Topic: c16Topics[rng.Intn(len(c16Topics))]}
 			if sc.AllQoS1 && rng.Bool(0.7) {
 				p.QoS = 1
 			}
@@ -548,7 +556,9 @@ type c16Cli struct {
 	inflight       map[uint16]*c16Op
 	nextID         uint16
 	fromDB         bool
+	takenOver      bool            // a later connection was acknowledged while this one's handler was still running
 	subs           map[string]byte // bystander's own acknowledged subscriptions
+	tick           time.Duration   // odd nanoseconds slept before every write (tie breaking, see send)
 	ackq           []uint16        // PUBACKs to be written by the acker task
 	ackNote        chan struct{}
 }
@@ -584,6 +594,7 @@ type c16H struct {
 	admin   bool // admin delete issued
 	supInflight bool // a connection had unacknowledged operations when it was superseded
 	probeN  int
+	ncli    int
 	takeovers, restores int
 }
 
@@ -612,19 +623,33 @@ func (h *c16H) describe() string {
 	return sb.String()
 }
 
+// The three broadcast helpers swap a channel; a (real) mutex keeps the swap
+// atomic even if the runtime preempts the goroutine at the call of make (it
+// never spans a gate).
+var c16Bmu sync.Mutex
+
 func (h *c16H) bcast() {
-	close(h.note)
+	c16Bmu.Lock()
+	old := h.note
 	h.note = make(chan struct{})
+	c16Bmu.Unlock()
+	close(old)
 }
 
 func (c *c16Cli) bcast() {
-	close(c.note)
+	c16Bmu.Lock()
+	old := c.note
 	c.note = make(chan struct{})
+	c16Bmu.Unlock()
+	close(old)
 }
 
 func (c *c16Cli) bcastAck() {
-	close(c.ackNote)
+	c16Bmu.Lock()
+	old := c.ackNote
 	c.ackNote = make(chan struct{})
+	c16Bmu.Unlock()
+	close(old)
 }
 
 // acker writes the PUBACKs: like a real client library the connection keeps
@@ -672,6 +697,63 @@ func c16Stack() string {
 		}
 	}
 	return strings.Join(out, "\n")
+}
+
+// c16Blocked lists where the goroutines of the code under test are blocked
+// (topmost mqttproxy frames), for the report of a stuck broker.
+func c16Blocked() string {
+	buf := make([]byte, 1<<20)
+	n := runtime.Stack(buf, true)
+	var out []string
+	seen := map[string]int{}
+	for _, g := range strings.Split(string(buf[:n]), "\n\n") {
+		lines := strings.Split(g, "\n")
+		if len(lines) < 3 || !strings.Contains(lines[0], "synctest bubble") {
+			continue
+		}
+		var frames []string
+		for i := 1; i+1 < len(lines) && len(frames) < 4; i += 2 {
+			fn := lines[i]
+			if strings.Contains(fn, "mqttproxy.") && !strings.Contains(fn, "c16") {
+				if j := strings.Index(fn, "mqttproxy."); j >= 0 {
+					fn = fn[j+len("mqttproxy."):]
+				}
+				if j := strings.LastIndex(fn, "("); j > 0 {
+					fn = fn[:j]
+				}
+				loc := strings.TrimSpace(lines[i+1])
+				if j := strings.LastIndex(loc, "/"); j >= 0 {
+					loc = loc[j+1:]
+				}
+				if j := strings.Index(loc, " "); j >= 0 {
+					loc = loc[:j]
+				}
+				frames = append(frames, fn+"@"+loc)
+			}
+		}
+		if len(frames) == 0 {
+			continue
+		}
+		state := lines[0]
+		if j := strings.Index(state, "["); j >= 0 {
+			state = state[j:]
+		}
+		if j := strings.Index(state, ","); j >= 0 {
+			state = state[:j] + "]"
+		}
+		k := state + " " + strings.Join(frames, " < ")
+		if seen[k] == 0 {
+			out = append(out, k)
+		}
+		seen[k]++
+	}
+	sort.Strings(out)
+	for i, k := range out {
+		if seen[k] > 1 {
+			out[i] = fmt.Sprintf("%s (x%d)", k, seen[k])
+		}
+	}
+	return "  " + strings.Join(out, "\n  ")
 }
 
 // waitFor blocks until cond holds, the connection is gone, or the time-out.
@@ -739,7 +821,7 @@ func (h *c16H) stuckDiag() (class, detail string) {
 			}
 		}
 	}
-	detail = fmt.Sprintf("clients with a full write queue: %v; sessions whose mutex is held: %v", full, locked)
+	detail = fmt.Sprintf("clients with a full write queue: %v; sessions whose mutex is held: %v\nblocked goroutines of the code under test:\n%s", full, locked, c16Blocked())
 	if len(full) > 0 && len(locked) > 0 {
 		return "C16.stuck.session-locked-by-full-queue", detail
 	}
@@ -779,16 +861,25 @@ func c16ConnID(cl *Client) int {
 
 // ---- clients ----------------------------------------------------------------
 
+var c16Primes = []int{137, 139, 149, 151, 157, 163, 167, 173, 179, 181, 191, 193}
+
 func (h *c16H) newCli(name, id string, idx int, spec c16Conn) *c16Cli {
-	return &c16Cli{h: h, name: name, id: id, idx: idx, spec: spec, wmu: make(chan struct{}, 1), note: make(chan struct{}), ackNote: make(chan struct{}),
+	h.ncli++
+	return &c16Cli{tick: time.Duration(c16Primes[h.ncli%len(c16Primes)]) * time.Nanosecond, h: h, name: name, id: id, idx: idx, spec: spec, wmu: make(chan struct{}, 1), note: make(chan struct{}), ackNote: make(chan struct{}),
 		recv: map[string]int{}, acks: map[uint16]bool{}, inflight: map[uint16]*c16Op{}, nextID: 1, subs: map[string]byte{}}
 }
 
+// send writes one packet. It first lets an odd number of nanoseconds pass so
+// that no two packets of the run are processed at instants that differ by a
+// multiple of the broker's 200 ms resend period or of half a second
+// (keep-alive deadlines): timers of production goroutines that expire at the
+// same instant wake them in an irreproducible order.
 func (c *c16Cli) send(p packets.ControlPacket) error {
 	var buf bytes.Buffer
 	if err := p.Write(&buf); err != nil {
 		return err
 	}
+	c.h.r.Sleep(c.tick)
 	c.wmu <- struct{}{}
 	c.conn.SetWriteDeadline(time.Now().Add(c16Timeout))
 	_, err := c.conn.Write(buf.Bytes())
@@ -973,6 +1064,7 @@ func (h *c16H) driver() {
 		h.cur = c
 		h.logf("%s: CONNACK takeover=%v fromDB=%v model: persistent=%v subs=%v amb=%v", c.name, takeover, c.fromDB, h.model.persistent, h.model.firm(), c16Keys(h.model.amb))
 		if takeover {
+			prev.takenOver = true
 			h.takeovers++
 			h.r.Probe("c16.takeover")
 			if prev.ended {
@@ -1275,23 +1367,13 @@ func (h *c16H) brokerDeleted() bool {
 	return false
 }
 
-// takeoverTeardown: some connection of the contested id was torn down (its
-// handler returned) after a later connection had sent its CONNECT.
+// takeoverTeardown: some connection of the contested id was taken over, i.e.
+// its handler was still running when its successor was acknowledged (its
+// teardown therefore happened, happens or will happen after the takeover).
 func (h *c16H) takeoverTeardown() bool {
-	for i, c := range h.clis {
-		s := h.srv[c.cid]
-		if !c.connected || s == nil {
-			continue
-		}
-		for _, d := range h.clis[i+1:] {
-			if d.connectSeq == 0 {
-				continue
-			}
-			// returned after the later CONNECT, or superseded and possibly in
-			// the middle of its teardown right now
-			if (s.returned && s.retSeq > d.connectSeq) || (!s.returned && d.connected) {
-				return true
-			}
+	for _, c := range h.clis {
+		if c.takenOver {
+			return true
 		}
 	}
 	return false
@@ -1423,7 +1505,7 @@ func (h *c16H) final() {
 		r.Probe("c16.superseded_connection_never_torn_down")
 	}
 	lag := func() string {
-		if h.sc.Store.Async && S.fromDB {
+		if h.sc.Store.Async {
 			return ".store-lag"
 		}
 		return ""
@@ -1518,6 +1600,23 @@ func (h *c16H) final() {
 	if h.stuck {
 		return
 	}
+	// expectations are fixed now: an operation acknowledged only after the probe
+	// publishes may or may not apply to them
+	for _, op := range S.inflight {
+		for _, f := range op.filters {
+			m.amb[f] = true
+			r.Probe("c16.operation_in_flight_at_probe")
+		}
+	}
+	type c16Exp struct {
+		must, may bool
+		why       string
+	}
+	exp := map[string]c16Exp{}
+	for _, t := range c16Topics {
+		must, may, why := m.expect(t)
+		exp[t] = c16Exp{must, may, why}
+	}
 	pl, ok := h.probe()
 	if !ok {
 		return
@@ -1529,7 +1628,7 @@ func (h *c16H) final() {
 		return
 	}
 	for _, t := range c16Topics {
-		must, may, why := m.expect(t)
+		must, may, why := exp[t].must, exp[t].may, exp[t].why
 		got := S.recv[pl[t]] > 0
 		switch {
 		case must && !got:
@@ -1657,6 +1756,21 @@ func c16Exec(r *sim.Run, sci interface{}) {
 		c16LoggerReady = true
 	}
 	r.MultiClass = true
+	// a blocked writer and the reader of one connection share one keep-alive
+	// deadline (SetDeadline) and would be woken at the same instant in an
+	// irreproducible order: no short keep-alive together with tiny socket
+	// buffers or with a subscriber that stops reading; even keep-alives tie with
+	// the resend ticker (1.5*KA is a multiple of 200 ms)
+	for i := range sc.Conns {
+		c := &sc.Conns[i]
+		if c.KeepAlive < 3600 {
+			if (sc.BufSize > 0 && sc.BufSize <= 4096) || c.End == "stall" {
+				c.KeepAlive = 0
+			} else if c.KeepAlive%2 == 0 && c.KeepAlive > 0 {
+				c.KeepAlive++
+			}
+		}
+	}
 	h := &c16H{r: r, sc: sc, byConn: map[int]*c16Cli{}, srv: map[int]*c16Srv{}, note: make(chan struct{})}
 	h.model = c16Model{subs: map[string]byte{}, inherited: map[string]bool{}, amb: map[string]bool{}, ever: map[string]bool{}}
 	h.n = simnet.New()
@@ -1705,7 +1819,14 @@ func c16Exec(r *sim.Run, sci interface{}) {
 			if err != nil {
 				return
 			}
-			go h.serve(conn)
+			cn := conn
+			id := 0
+			if sc, ok := conn.(*simnet.Conn); ok {
+				id = sc.ID
+			}
+			// a named task: the names of the broker's goroutines (children of
+			// this one) then do not depend on who reaches a gate first
+			r.Go(fmt.Sprintf("srv%d", id), func() { h.serve(cn) })
 		}
 	}()
 	r.SetInvariant(h.invariant)
